@@ -50,10 +50,14 @@ type FSM struct {
 	restoreMu sync.Mutex
 }
 
+// sessionExpiration returns the session expiration of the current network
+// configuration. It deliberately does not use sessionExpirationDur: that
+// field is also overwritten when Snapshot replays old config messages into a
+// temporary server, and it is not restored from snapshots.
 func (fsm *FSM) sessionExpiration() time.Duration {
-	fsm.sessionExpirationMu.RLock()
-	defer fsm.sessionExpirationMu.RUnlock()
-	return fsm.sessionExpirationDur
+	ircServer.ConfigMu.RLock()
+	defer ircServer.ConfigMu.RUnlock()
+	return time.Duration(ircServer.Config.SessionExpiration)
 }
 
 // sendMessages appends the specified batch of messages to the output,
@@ -254,7 +258,19 @@ func (fsm *FSM) Snapshot() (raft.FSMSnapshot, error) {
 	compactionEnd := compactionStart.Add(-1 * exp)
 
 	tmpServer := ircserver.NewIRCServer("testnetwork", time.Now())
-	if oldState, ok := fsm.lastSnapshotState[first-1]; !ok {
+	// Find the most recent snapshot state which does not go beyond first-1.
+	// Its key can be smaller than first-1: raft-internal log entries (e.g.
+	// no-ops after elections) are never stored in ircstore, so there may be
+	// gaps between the last compacted index and the first retained index.
+	// Only compaction deletes messages from ircstore (and it stores the
+	// resulting state), so no message lies in such a gap.
+	stateIndex, ok := uint64(0), false
+	for key := range fsm.lastSnapshotState {
+		if key <= first-1 && (!ok || key > stateIndex) {
+			stateIndex, ok = key, true
+		}
+	}
+	if oldState := fsm.lastSnapshotState[stateIndex]; !ok {
 		if first == 1 {
 			// This is the first snapshot which this RobustIRC network
 			// is taking, there cannot be previous state.
@@ -270,7 +286,7 @@ func (fsm *FSM) Snapshot() (raft.FSMSnapshot, error) {
 		// needs to be retained in case the snapshot which is
 		// currently in progress fails and needs to be repeated.
 		for key, _ := range fsm.lastSnapshotState {
-			if key == first-1 {
+			if key == stateIndex {
 				continue
 			}
 			delete(fsm.lastSnapshotState, key)
@@ -279,6 +295,9 @@ func (fsm *FSM) Snapshot() (raft.FSMSnapshot, error) {
 
 	iterator := fsm.ircstore.GetBulkIterator(first, last+1)
 	defer iterator.Release()
+	// compactedAll tracks whether every message in ircstore was compacted,
+	// in which case the state covers all indexes up to (and including) last.
+	compactedAll := true
 	available := iterator.First()
 	for available {
 		var nlog raft.Log
@@ -317,6 +336,7 @@ func (fsm *FSM) Snapshot() (raft.FSMSnapshot, error) {
 		parsed := robust.NewMessageFromBytes(nlog.Data, robust.IdFromRaftIndex(nlog.Index))
 		if parsed.Timestamp().After(compactionEnd) {
 			first = i
+			compactedAll = false
 			break
 		}
 
@@ -329,6 +349,10 @@ func (fsm *FSM) Snapshot() (raft.FSMSnapshot, error) {
 			}
 			fsm.ircstore.DeleteRange(i, i)
 		}
+	}
+
+	if compactedAll {
+		first = last + 1
 	}
 
 	state, err := tmpServer.Marshal(first - 1)
